@@ -580,6 +580,54 @@ def run(ctx):
                             origin.close()
                             proxy.close()
                             RECORD[0] = was
+                    def ep_doctor_and_builtin_locations(schema=schema):
+                        # (a) the locations suds has built in for namespaces are the three it documents; a well-known
+                        # namespace imported without a location names no document; (b) an ImportDoctor import without
+                        # a location names none either, and one for a namespace the schema already imports from its own
+                        # location does not add a second place to fetch from
+                        import io
+                        import suds.xsd.doctor
+                        import suds.xsd.sxbasic
+                        out = []
+                        want_bound = {"http://schemas.xmlsoap.org/soap/encoding/": "suds://schemas.xmlsoap.org/soap/encoding/",
+                                      "http://www.w3.org/XML/1998/namespace": "http://www.w3.org/2001/xml.xsd",
+                                      "http://www.w3.org/2001/XMLSchema": "http://www.w3.org/2001/XMLSchema.xsd"}
+                        if dict(suds.xsd.sxbasic.Import.locations) != want_bound:
+                            out.append("%s built-in locations: %r" % (MARK, sorted(set(suds.xsd.sxbasic.Import.locations) - set(want_bound))))
+                        known = ["http://www.w3.org/2005/08/addressing", "http://schemas.xmlsoap.org/ws/2004/08/addressing",
+                                 "http://docs.oasis-open.org/wss/2004/01/oasis-200401-wss-wssecurity-secext-1.0.xsd",
+                                 "http://www.w3.org/2000/09/xmldsig#", "http://www.w3.org/1999/xlink",
+                                 "http://schemas.xmlsoap.org/soap/envelope/", "http://www.w3.org/2003/05/soap-envelope",
+                                 "http://schemas.xmlsoap.org/wsdl/", "http://www.w3.org/2005/05/xmlmime"]
+                        own = ('<xsd:schema xmlns:xsd="http://www.w3.org/2001/XMLSchema" targetNamespace="urn:own"><xsd:element '
+                               'name="o" type="xsd:string"/></xsd:schema>').encode()
+                        cases = [("known-namespaces", "".join('<xsd:import namespace="%s"/>' % n for n in known), None, []),
+                                 ("doctor-without-location", "", suds.xsd.doctor.Import("http://127.0.0.1:9/doctored-ns"), []),
+                                 ("doctor-next-to-own-import", '<xsd:import namespace="urn:own" schemaLocation="http://fetch.invalid/own.xsd"/>',
+                                  suds.xsd.doctor.Import("urn:own", "http://127.0.0.1:9/doctor-own.xsd"), ["http://fetch.invalid/own.xsd"])]
+                        for label, decl, imp, extra_urls in cases:
+                            main = wsdlkit.wsdl_doc(decl + schema, "f", "fResponse")
+                            asked = []
+
+                            class TQ(suds.transport.Transport):
+                                def open(self, request, main=main, asked=asked):
+                                    asked.append(str(request.url))
+                                    if str(request.url).endswith("main.wsdl"):
+                                        return io.BytesIO(main)
+                                    if str(request.url) == "http://fetch.invalid/own.xsd":
+                                        return io.BytesIO(own)
+                                    raise suds.transport.TransportError("no such document", 404)
+
+                                def send(self, request):
+                                    raise AssertionError("no send")
+                            kw = {} if imp is None else {"doctor": suds.xsd.doctor.ImportDoctor(imp)}
+                            try:
+                                out.append(str(suds.client.Client("http://fetch.invalid/main.wsdl", transport=TQ(), cache=None, **kw)))
+                            except Exception as e:
+                                out.append("%s: %s" % (type(e).__name__, e))
+                            if asked != ["http://fetch.invalid/main.wsdl"] + extra_urls:
+                                out.append("%s fetched (%s): %r" % (MARK, label, asked[1:]))
+                        return " ".join(out)
                     extra = [("transport-fetch", ep_transport_fetch), ("str-reply", ep_str_reply),
                              ("store-served", ep_store_served), ("huge-reply", ep_huge_reply)] if rep == 0 and \
                         name in ("none", "internal-only") else []
@@ -592,6 +640,7 @@ def run(ctx):
                         extra.append(("cache-folder-only", ep_cache_folder_only))
                         extra.append(("cache-protocols", ep_cache_protocols))
                         extra.append(("include-chain", ep_include_chain))
+                        extra.append(("doctor-and-builtin-locations", ep_doctor_and_builtin_locations))
                         extra.append(("default-store", ep_default_store))
                         if name == "none":
                             extra.append(("environment-proxy", ep_environment_proxy))
